@@ -219,6 +219,14 @@ type toyCodec struct {
 	text        bool
 	failMarshal bool
 	log         *[]string
+	repeat      int // text form writes every byte this many times (a codec whose re-encoded form is much larger)
+}
+
+func (c *toyCodec) rep() int {
+	if c.repeat < 1 {
+		return 1
+	}
+	return c.repeat
 }
 
 func (c *toyCodec) Name() string   { return c.name }
@@ -241,7 +249,9 @@ func (c *toyCodec) MarshalAppend(base []byte, msg proto.Message) ([]byte, error)
 	}
 	base = append(base, '{')
 	for _, b := range fm.data {
-		base = append(base, b^0x20)
+		for i := 0; i < c.rep(); i++ {
+			base = append(base, b^0x20)
+		}
 	}
 	return append(base, '}'), nil
 }
@@ -263,9 +273,19 @@ func (c *toyCodec) Unmarshal(data []byte, msg proto.Message) error {
 	if len(data) < 2 || data[0] != '{' || data[len(data)-1] != '}' {
 		return errToyDecode
 	}
-	fm.data = make([]byte, 0, len(data)-2)
-	for _, b := range data[1 : len(data)-1] {
-		fm.data = append(fm.data, b^0x20)
+	inner := data[1 : len(data)-1]
+	r := c.rep()
+	if len(inner)%r != 0 {
+		return errToyDecode
+	}
+	fm.data = make([]byte, 0, len(inner)/r)
+	for i := 0; i < len(inner); i += r {
+		for j := 1; j < r; j++ {
+			if inner[i+j] != inner[i] {
+				return errToyDecode
+			}
+		}
+		fm.data = append(fm.data, inner[i]^0x20)
 	}
 	return nil
 }
@@ -288,6 +308,9 @@ func (c toyCodecUnstable) Unmarshal(data []byte, msg proto.Message) error {
 	return c.inner.Unmarshal(data, msg)
 }
 
+// refJSONRepeat mirrors fakeConfig.jsonRepeat for the reference codec (set by newPipe for every run).
+var refJSONRepeat = 1
+
 // refToyEncode / refToyDecode: reference versions used by oracles.
 func refToyEncode(text bool, abstract []byte) []byte {
 	if !text {
@@ -295,7 +318,9 @@ func refToyEncode(text bool, abstract []byte) []byte {
 	}
 	out := []byte{'{'}
 	for _, b := range abstract {
-		out = append(out, b^0x20)
+		for i := 0; i < refJSONRepeat; i++ {
+			out = append(out, b^0x20)
+		}
 	}
 	return append(out, '}')
 }
@@ -307,9 +332,18 @@ func refToyDecode(text bool, wire []byte) ([]byte, bool) {
 	if len(wire) < 2 || wire[0] != '{' || wire[len(wire)-1] != '}' {
 		return nil, false
 	}
-	out := make([]byte, 0, len(wire)-2)
-	for _, b := range wire[1 : len(wire)-1] {
-		out = append(out, b^0x20)
+	inner := wire[1 : len(wire)-1]
+	if len(inner)%refJSONRepeat != 0 {
+		return nil, false
+	}
+	out := make([]byte, 0, len(inner))
+	for i := 0; i < len(inner); i += refJSONRepeat {
+		for j := 1; j < refJSONRepeat; j++ {
+			if inner[i+j] != inner[i] {
+				return nil, false
+			}
+		}
+		out = append(out, inner[i]^0x20)
 	}
 	return out, true
 }
@@ -372,13 +406,30 @@ type toyDecompressor struct {
 	expand  int // >1: each byte is emitted expand times (decompression bomb model)
 	pend    []byte
 	count   *int // total bytes produced (shared counter), may be nil
+	everOK  bool
 }
 
+// Like compress/gzip: Reset reads and validates the header at once, and a reader whose Reset never
+// succeeded must not be closed (gzip.Reader.Close then dereferences a nil decompressor).
 func (d *toyDecompressor) Reset(r io.Reader) error {
 	d.src = r
 	d.started = false
-	d.isReset = true
+	d.isReset = false
 	d.pend = nil
+	var m [1]byte
+	n, err := r.Read(m[:])
+	if n == 0 {
+		if err == nil || err == io.EOF {
+			err = errToyCorrupt
+		}
+		return err
+	}
+	if m[0] != toyMagic {
+		return errToyCorrupt
+	}
+	d.started = true
+	d.isReset = true
+	d.everOK = true
 	return nil
 }
 
@@ -436,6 +487,9 @@ func (d *toyDecompressor) Read(p []byte) (int, error) {
 }
 
 func (d *toyDecompressor) Close() error {
+	if !d.everOK {
+		panic("toy decompressor: Close before any successful Reset (compress/gzip would dereference nil here)")
+	}
 	d.isReset = false
 	return nil
 }
@@ -475,12 +529,16 @@ type fakeConfig struct {
 	unknown     bool
 	failMarshal bool
 	decompCount *int
+	jsonRepeat  int
 }
 
 func toyCodecOption(name string, text bool, cfg *fakeConfig) TranscoderOption {
 	return transcoderOptionFunc(func(opts *transcoderOptions) {
 		opts.codecs[name] = func(TypeResolver) Codec {
 			c := &toyCodec{name: name, text: text, failMarshal: cfg.failMarshal}
+			if text {
+				c.repeat = cfg.jsonRepeat
+			}
 			if cfg.unstable {
 				return toyCodecUnstable{inner: c}
 			}
